@@ -896,6 +896,673 @@ fn probes_c02(cx: &mut Ctx) {
     }
 }
 
+
+// ================================================================================================
+// C03 — wire codec
+// ================================================================================================
+mod c03 {
+    use sciparse::{
+        address::host_addr::{ServiceAddr, WireHostAddr},
+        checksum::ChecksumDigest,
+        core::{convert::TryFromView, encode::WireEncode},
+        dataplane_path::{
+            model::DpPath,
+            onehop::model::OneHopPath,
+            standard::{
+                model::{HopField, InfoField, Segment, StandardPath},
+                types::{HopFieldFlags, HopFieldMac, InfoFieldFlags},
+            },
+            types::PathType,
+        },
+        header::model::{AddressHeader, CommonHeader, ScionPacketHeader},
+        identifier::isd_asn::IsdAsn,
+        packet::model::{ScionPacket, ScionRawPacket, ScionScmpPacket, ScionUdpPacket},
+        payload::{
+            ProtocolNumber,
+            scmp::model::*,
+            udp::model::UdpDatagram,
+        },
+        reexport::tinyvec::{ArrayVec, TinyVec},
+    };
+    use serde_json::json;
+    use verif_harness::*;
+
+    use super::Ctx;
+
+    #[derive(Clone, Debug)]
+    pub enum Pay {
+        Raw(Vec<u8>),
+        Udp(UdpDatagram),
+        Scmp(ScmpMessage),
+    }
+    #[derive(Clone, Debug)]
+    pub struct Model {
+        pub header: ScionPacketHeader,
+        pub pay: Pay,
+    }
+
+    // ---- model text (same grammar as Driver/Codec.lean showPacket) ----
+    fn hx(b: &[u8]) -> String {
+        hex(b)
+    }
+    /// long constant payloads are sent as rep:<byte>:<len>
+    fn hx_or_rep(b: &[u8]) -> String {
+        if b.len() > 4096 && b.iter().all(|x| *x == b[0]) { format!("rep:{}:{}", b[0], b.len()) } else { hex(b) }
+    }
+    fn show_host(h: &WireHostAddr) -> String {
+        match h {
+            WireHostAddr::V4(a) => format!("v4:{}", hx(&a.octets())),
+            WireHostAddr::V6(a) => format!("v6:{}", hx(&a.octets())),
+            WireHostAddr::Svc(s) => format!("svc:{}", s.0),
+            WireHostAddr::Unknown { id, bytes } => format!("unk:{id}:{}", hx(bytes)),
+        }
+    }
+    fn show_info(i: &InfoField) -> String {
+        format!("{},{},{}", i.flags.bits(), i.segment_id, i.timestamp)
+    }
+    fn show_hop(h: &HopField) -> String {
+        format!("{},{},{},{},{}", h.flags.bits(), h.expiration_units, h.cons_ingress, h.cons_egress, hx(&h.mac.0))
+    }
+    fn show_path(p: &DpPath) -> String {
+        match p {
+            DpPath::Empty => "empty".into(),
+            // a non-canonical PathType::Other(0..=4) is printed as 256 + k (the decoder never produces it)
+            DpPath::Unsupported { path_type, data } => format!("unsup:{}:{}", match path_type { PathType::Other(k) if *k <= 4 => 256 + *k as usize, t => u8::from(*t) as usize }, hx(data)),
+            DpPath::OneHop(o) => format!("onehop:{}/{}/{}", show_info(&o.info), show_hop(&o.hops[0]), show_hop(&o.hops[1])),
+            DpPath::Standard(s) => format!(
+                "std:{}:{}:{}",
+                s.current_info_field,
+                s.current_hop_field,
+                s.segments.iter().map(|g| std::iter::once(show_info(&g.info_field)).chain(g.hop_fields.iter().map(show_hop)).collect::<Vec<_>>().join("/")).collect::<Vec<_>>().join(";")
+            ),
+        }
+    }
+    fn vals(v: &[u64]) -> String {
+        if v.is_empty() { "-".into() } else { v.iter().map(|x| x.to_string()).collect::<Vec<_>>().join(",") }
+    }
+    pub fn show_scmp(m: &ScmpMessage, long: bool) -> String {
+        let d = |b: &[u8]| if long { hx_or_rep(b) } else { hx(b) };
+        match m {
+            ScmpMessage::DestinationUnreachable(x) => format!("scmp:DestinationUnreachable:1:{}:-:{}", u8::from(x.code), d(x.get_offending_packet())),
+            ScmpMessage::PacketTooBig(x) => format!("scmp:PacketTooBig:2:0:{}:{}", vals(&[x.mtu as u64]), d(x.get_offending_packet())),
+            ScmpMessage::ParameterProblem(x) => format!("scmp:ParameterProblem:4:{}:{}:{}", u8::from(x.code), vals(&[x.pointer as u64]), d(x.get_offending_packet())),
+            ScmpMessage::ExternalInterfaceDown(x) => format!("scmp:ExternalInterfaceDown:5:0:{}:{}", vals(&[x.isd_asn.to_u64(), x.interface_id as u64]), d(x.get_offending_packet())),
+            ScmpMessage::InternalConnectivityDown(x) => format!("scmp:InternalConnectivityDown:6:0:{}:{}", vals(&[x.isd_asn.to_u64(), x.ingress_interface_id as u64, x.egress_interface_id as u64]), d(x.get_offending_packet())),
+            ScmpMessage::EchoRequest(x) => format!("scmp:EchoRequest:128:0:{}:{}", vals(&[x.identifier as u64, x.sequence_number as u64]), d(&x.data)),
+            ScmpMessage::EchoReply(x) => format!("scmp:EchoReply:129:0:{}:{}", vals(&[x.identifier as u64, x.sequence_number as u64]), d(&x.data)),
+            ScmpMessage::TracerouteRequest(x) => format!("scmp:TracerouteRequest:130:0:{}:-", vals(&[x.identifier as u64, x.sequence_number as u64])),
+            ScmpMessage::TracerouteReply(x) => format!("scmp:TracerouteReply:131:0:{}:-", vals(&[x.identifier as u64, x.sequence_number as u64, x.isd_asn.to_u64(), x.interface_id as u64])),
+            ScmpMessage::Unknown(x) => format!("scmp:Unknown:{}:{}:-:{}", x.message_type, x.code, d(&x.message_specific_data)),
+        }
+    }
+    pub fn show_header(h: &ScionPacketHeader) -> String {
+        format!(
+            "{} {} {} {} {} {} {} {}",
+            h.common.traffic_class, h.common.flow_id, u8::from(h.common.next_header), h.address.dst_ia.to_u64(), h.address.src_ia.to_u64(),
+            show_host(&h.address.dst_host_addr), show_host(&h.address.src_host_addr), show_path(&h.path)
+        )
+    }
+    pub fn show_model(m: &Model, long: bool) -> String {
+        let p = match &m.pay {
+            Pay::Raw(b) => format!("raw:{}", if long { hx_or_rep(b) } else { hx(b) }),
+            Pay::Udp(u) => format!("udp:{}:{}:{}", u.src_port, u.dst_port, if long { hx_or_rep(&u.payload) } else { hx(&u.payload) }),
+            Pay::Scmp(s) => show_scmp(s, long),
+        };
+        format!("{} {p}", show_header(&m.header))
+    }
+
+    // ---- implementation calls ----
+    fn enc_str(r: Result<Result<Vec<u8>, String>, String>) -> (String, Option<Vec<u8>>) {
+        match r {
+            Err(m) => (format!("panic {}", &m[..m.len().min(60)].replace(' ', "_")), None),
+            Ok(Ok(b)) => (format!("ok {}", hex(&b)), Some(b)),
+            Ok(Err(e)) => (format!("err {}", e.trim_start_matches("cannot encode structure: ").replace(' ', "_")), None),
+        }
+    }
+    pub fn impl_encode(m: &Model) -> (String, Option<Vec<u8>>) {
+        match &m.pay {
+            Pay::Raw(b) => { let p: ScionRawPacket = ScionPacket { header: m.header.clone(), payload: b.clone() }; enc_str(catch(|| p.try_encode_to_vec().map_err(|e| e.to_string()))) }
+            Pay::Udp(u) => { let p: ScionUdpPacket = ScionPacket { header: m.header.clone(), payload: u.clone() }; enc_str(catch(|| p.try_encode_to_vec().map_err(|e| e.to_string()))) }
+            Pay::Scmp(s) => { let p: ScionScmpPacket = ScionPacket { header: m.header.clone(), payload: s.clone() }; enc_str(catch(|| p.try_encode_to_vec().map_err(|e| e.to_string()))) }
+        }
+    }
+    fn impl_required(m: &Model) -> usize {
+        match &m.pay {
+            Pay::Raw(b) => ScionPacket { header: m.header.clone(), payload: b.clone() }.required_size(),
+            Pay::Udp(u) => ScionPacket { header: m.header.clone(), payload: u.clone() }.required_size(),
+            Pay::Scmp(s) => ScionPacket { header: m.header.clone(), payload: s.clone() }.required_size(),
+        }
+    }
+    /// encode into a caller-provided dirty buffer (every byte 0xA5) of `extra` more bytes than required
+    fn impl_encode_dirty(m: &Model, extra: usize) -> Option<Vec<u8>> {
+        let n = impl_required(m);
+        let mut buf = vec![0xA5u8; n + extra];
+        let r = match &m.pay {
+            Pay::Raw(b) => catch(|| ScionPacket { header: m.header.clone(), payload: b.clone() }.try_encode(&mut buf).ok()),
+            Pay::Udp(u) => catch(|| ScionPacket { header: m.header.clone(), payload: u.clone() }.try_encode(&mut buf).ok()),
+            Pay::Scmp(s) => catch(|| ScionPacket { header: m.header.clone(), payload: s.clone() }.try_encode(&mut buf).ok()),
+        };
+        match r { Ok(Some(k)) => { buf.truncate(k); Some(buf) } _ => None }
+    }
+    fn verr(e: sciparse::core::view::ViewConversionError) -> String {
+        use sciparse::core::view::ViewConversionError as V;
+        match e {
+            V::BufferTooSmall { at, required, actual } => format!("err small {} {required} {actual}", at.replace(' ', "_")),
+            V::Other(m) => format!("err other {}", m.replace(' ', "_")),
+        }
+    }
+    /// real decoder: `ok <consumed> <model text>` | `err …` | `panic`
+    pub fn impl_decode(kind: &str, b: &[u8]) -> (String, Option<Model>) {
+        let r = catch(|| match kind {
+            "raw" => ScionRawPacket::try_from_slice(b).map(|(p, rest)| (Model { header: p.header, pay: Pay::Raw(p.payload) }, b.len() - rest.len())),
+            "udp" => ScionUdpPacket::try_from_slice(b).map(|(p, rest)| (Model { header: p.header, pay: Pay::Udp(p.payload) }, b.len() - rest.len())),
+            _ => ScionScmpPacket::try_from_slice(b).map(|(p, rest)| (Model { header: p.header, pay: Pay::Scmp(p.payload) }, b.len() - rest.len())),
+        });
+        match r {
+            Err(m) => (format!("panic {}", &m[..m.len().min(60)]), None),
+            Ok(Err(e)) => (verr(e), None),
+            Ok(Ok((m, n))) => (format!("ok {n} {}", show_model(&m, false)), Some(m)),
+        }
+    }
+
+    // ---- independent RFC 1071 checksum over pseudo-header ‖ message ----
+    fn ones_sum(d: &[u8]) -> u32 {
+        let mut s: u64 = 0;
+        let mut i = 0;
+        while i + 1 < d.len() { s += ((d[i] as u64) << 8) | d[i + 1] as u64; i += 2 }
+        if i < d.len() { s += (d[i] as u64) << 8 }
+        while s > 0xffff { s = (s >> 16) + (s & 0xffff) }
+        s as u32
+    }
+    fn host_bytes(h: &WireHostAddr) -> Vec<u8> {
+        match h {
+            WireHostAddr::V4(a) => a.octets().to_vec(),
+            WireHostAddr::V6(a) => a.octets().to_vec(),
+            WireHostAddr::Svc(s) => vec![(s.0 >> 8) as u8, s.0 as u8, 0, 0],
+            WireHostAddr::Unknown { bytes, .. } => bytes.to_vec(),
+        }
+    }
+    fn pseudo(a: &AddressHeader, proto: u8, len: usize) -> Vec<u8> {
+        let mut v = vec![];
+        v.extend_from_slice(&a.dst_ia.to_u64().to_be_bytes());
+        v.extend_from_slice(&a.src_ia.to_u64().to_be_bytes());
+        v.extend_from_slice(&host_bytes(&a.dst_host_addr));
+        v.extend_from_slice(&host_bytes(&a.src_host_addr));
+        v.extend_from_slice(&(len as u32).to_be_bytes());
+        v.extend_from_slice(&(proto as u32).to_be_bytes());
+        v
+    }
+
+    // ---- representability (what the wire format can carry), independent of the crate ----
+    pub fn unrepresentable(m: &Model) -> Option<&'static str> {
+        let hs = m.header.required_size();
+        let ps = match &m.pay { Pay::Raw(b) => b.len(), Pay::Udp(u) => 8 + u.payload.len(), Pay::Scmp(s) => ScionPacket { header: m.header.clone(), payload: s.clone() }.required_size() - hs };
+        if ps > 65535 { return Some("payload-size") }
+        if hs > 1020 || hs % 4 != 0 { return Some("header-size") }
+        if m.header.common.flow_id >= 1 << 20 { return Some("flow-id") }
+        for h in [&m.header.address.dst_host_addr, &m.header.address.src_host_addr] {
+            if let WireHostAddr::Unknown { id, bytes } = h {
+                if bytes.is_empty() || bytes.len() % 4 != 0 || bytes.len() > 16 { return Some("host-size") }
+                let nib = ((*id as usize) << 2) | (bytes.len() / 4 - 1);
+                if *id > 3 || nib == 0 || nib == 3 || nib == 4 { return Some("host-type") }
+            }
+        }
+        match &m.header.path {
+            DpPath::Unsupported { path_type, data } => {
+                let t = u8::from(*path_type);
+                if t <= 2 || matches!(path_type, PathType::Other(0..=4)) { return Some("path-type") }
+                if data.len() % 4 != 0 { return Some("header-size") }
+            }
+            DpPath::Standard(s) => {
+                if s.segments.is_empty() || s.segments.iter().any(|g| g.hop_fields.is_empty() || g.hop_fields.len() > 63) { return Some("segments") }
+                let hops: usize = s.segments.iter().map(|g| g.hop_fields.len()).sum();
+                if s.current_hop_field as usize >= hops || s.current_info_field as usize >= s.segments.len() { return Some("curr-index") }
+                if s.current_hop_field > 63 { return Some("curr-hop-6bit") }
+            }
+            _ => {}
+        }
+        if let Pay::Scmp(ScmpMessage::Unknown(u)) = &m.pay {
+            if matches!(u.message_type, 1 | 2 | 4 | 5 | 6 | 128..=131) { return Some("scmp-type") }
+        }
+        None
+    }
+    /// SCMP error messages quote only as much of the offending packet as fits (by specification)
+    fn quote_truncated(m: &Model) -> bool {
+        if let Pay::Scmp(s) = &m.pay {
+            let q = match s {
+                ScmpMessage::DestinationUnreachable(x) => Some((x.get_offending_packet().len(), 8)),
+                ScmpMessage::PacketTooBig(x) => Some((x.get_offending_packet().len(), 8)),
+                ScmpMessage::ParameterProblem(x) => Some((x.get_offending_packet().len(), 8)),
+                ScmpMessage::ExternalInterfaceDown(x) => Some((x.get_offending_packet().len(), 20)),
+                ScmpMessage::InternalConnectivityDown(x) => Some((x.get_offending_packet().len(), 28)),
+                _ => None,
+            };
+            if let Some((l, h)) = q { return m.header.required_size() + h + l > 1232 }
+        }
+        false
+    }
+
+    // ---- generators ----
+    fn gen_host(rng: &mut Rng, adversarial: bool) -> WireHostAddr {
+        match rng.below(if adversarial { 7 } else { 5 }) {
+            0 => WireHostAddr::V4(std::net::Ipv4Addr::from(rng.next() as u32)),
+            1 => WireHostAddr::V6(std::net::Ipv6Addr::from(((rng.next() as u128) << 64) | rng.next() as u128)),
+            2 => WireHostAddr::Svc(ServiceAddr(*rng.pick(&[1u16, 2, 0x10, 0x8001, 0xffff, 0, 0x1234]))),
+            3 | 4 => {
+                // representable unknown types: id 0..3, size 4..16, excluding the nibbles of the known types
+                loop {
+                    let id = rng.below(4) as u8;
+                    let n = (rng.below(4) as usize + 1) * 4;
+                    let nib = (id << 2) | (n as u8 / 4 - 1);
+                    if nib != 0 && nib != 3 && nib != 4 {
+                        let mut bytes = ArrayVec::<[u8; 16]>::new();
+                        for b in rng.bytes(n) { bytes.push(b) }
+                        return WireHostAddr::Unknown { id, bytes };
+                    }
+                }
+            }
+            _ => {
+                let id = *rng.pick(&[0u8, 1, 4, 5, 63, 64, 255]);
+                let n = *rng.pick(&[0usize, 3, 4, 6, 8, 16]);
+                let mut bytes = ArrayVec::<[u8; 16]>::new();
+                for b in rng.bytes(n) { bytes.push(b) }
+                WireHostAddr::Unknown { id, bytes }
+            }
+        }
+    }
+    fn gen_info(rng: &mut Rng) -> InfoField {
+        InfoField { flags: InfoFieldFlags::from_bits_retain(*rng.pick(&[0u8, 1, 2, 3, 0xff, 0x80])), segment_id: rng.next() as u16, timestamp: *rng.pick(&[0u32, 1, 0x6000_0000, u32::MAX]) ^ (rng.next() as u32 & 0xff) }
+    }
+    fn gen_hop(rng: &mut Rng) -> HopField {
+        HopField { flags: HopFieldFlags::from_bits_retain(*rng.pick(&[0u8, 1, 2, 3, 0xfc])), expiration_units: rng.next() as u8, cons_ingress: rng.next() as u16, cons_egress: rng.next() as u16, mac: HopFieldMac(rng.bytes(6).try_into().unwrap()) }
+    }
+    fn gen_path(rng: &mut Rng, adversarial: bool) -> DpPath {
+        match rng.below(if adversarial { 8 } else { 6 }) {
+            0 => DpPath::Empty,
+            1 => DpPath::OneHop(OneHopPath { info: gen_info(rng), hops: [gen_hop(rng), gen_hop(rng)] }),
+            2 => { let n = *rng.pick(&[0usize, 4, 8, 40]); DpPath::Unsupported { path_type: PathType::from(*rng.pick(&[3u8, 4, 5, 100, 255])), data: rng.bytes(n) } }
+            3..=5 => {
+                let nseg = rng.range(1, 3) as usize;
+                let mut segments = ArrayVec::<[Segment; 3]>::new();
+                let mut hops = 0usize;
+                for _ in 0..nseg {
+                    let n = *rng.pick(&[1usize, 2, 3, 5, 12, 13, 20]);
+                    let mut hf = TinyVec::<[HopField; 12]>::new();
+                    for _ in 0..n { hf.push(gen_hop(rng)) }
+                    hops += n;
+                    segments.push(Segment { info_field: gen_info(rng), hop_fields: hf });
+                }
+                DpPath::Standard(StandardPath { current_info_field: rng.below(nseg as u64) as u8, current_hop_field: rng.below(hops.min(64) as u64) as u8, segments })
+            }
+            6 => {
+                // adversarial standard paths: empty, empty segment, indices out of range, many hops, curr hop > 63
+                let shape = rng.below(6);
+                let mut segments = ArrayVec::<[Segment; 3]>::new();
+                let lens: Vec<usize> = match shape { 0 => vec![], 1 => vec![2, 0], 2 => vec![64], 3 => vec![40, 40], 4 => vec![30, 30, 21], _ => vec![2, 2] };
+                for n in &lens {
+                    let mut hf = TinyVec::<[HopField; 12]>::new();
+                    for _ in 0..*n { hf.push(gen_hop(rng)) }
+                    segments.push(Segment { info_field: gen_info(rng), hop_fields: hf });
+                }
+                let hops: usize = lens.iter().sum();
+                let (ci, ch) = match shape { 3 => (rng.below(2) as u8, *rng.pick(&[63u8, 64, 70, 79])), 5 => (*rng.pick(&[0u8, 2, 3]), *rng.pick(&[3u8, 4, 200])), _ => (0, (hops.saturating_sub(1)).min(255) as u8) };
+                DpPath::Standard(StandardPath { current_info_field: ci, current_hop_field: ch, segments })
+            }
+            _ => { let n = *rng.pick(&[0usize, 4, 6, 36, 1000]); DpPath::Unsupported { path_type: *rng.pick(&[PathType::Empty, PathType::Scion, PathType::OneHop, PathType::Other(1), PathType::Other(3), PathType::Epic]), data: rng.bytes(n) } }
+        }
+    }
+    fn gen_data(rng: &mut Rng, sizes: &[usize]) -> Vec<u8> {
+        let n = *rng.pick(sizes);
+        if n > 4096 { vec![*rng.pick(&[0u8, 0xff, 0x5a]); n] } else { rng.bytes(n) }
+    }
+    fn gen_scmp(rng: &mut Rng, sizes: &[usize]) -> ScmpMessage {
+        use sciparse::payload::scmp::types::{ScmpDestinationUnreachableCode as DC, ScmpParameterProblemCode as PC};
+        let ia = IsdAsn::from_u64(rng.next());
+        match rng.below(10) {
+            0 => ScmpDestinationUnreachable::new(DC::from(rng.next() as u8 % 9), gen_data(rng, sizes)).into(),
+            1 => ScmpPacketTooBig::new(rng.next() as u16, gen_data(rng, sizes)).into(),
+            2 => ScmpParameterProblem::new(PC::from(*rng.pick(&[0u8, 1, 16, 33, 64, 200])), rng.next() as u16, gen_data(rng, sizes)).into(),
+            3 => ScmpExternalInterfaceDown::new(ia, rng.next() as u16, gen_data(rng, sizes)).into(),
+            4 => ScmpInternalConnectivityDown::new(ia, rng.next() as u16, rng.next() as u16, gen_data(rng, sizes)).into(),
+            5 => ScmpEchoRequest::new(rng.next() as u16, rng.next() as u16, gen_data(rng, sizes)).into(),
+            6 => ScmpEchoReply::new(rng.next() as u16, rng.next() as u16, gen_data(rng, sizes)).into(),
+            7 => ScmpTracerouteRequest::new(rng.next() as u16, rng.next() as u16).into(),
+            8 => ScmpTracerouteReply::new(rng.next() as u16, rng.next() as u16, ia, rng.next() as u16).into(),
+            _ => ScmpMessageUnknown::new(*rng.pick(&[0u8, 3, 7, 100, 127, 132, 255, 128, 1]), rng.next() as u8, gen_data(rng, sizes)).into(),
+        }
+    }
+    pub fn gen_model(rng: &mut Rng, adversarial: bool, sizes: &[usize]) -> Model {
+        let kind = rng.below(3);
+        let header = ScionPacketHeader {
+            common: CommonHeader {
+                traffic_class: rng.next() as u8,
+                flow_id: if adversarial && rng.chance(1, 4) { *rng.pick(&[1u32 << 20, u32::MAX, (1 << 20) + 5]) } else { rng.next() as u32 & 0xf_ffff },
+                next_header: match kind { 1 => ProtocolNumber::Udp, 2 => ProtocolNumber::Scmp, _ => ProtocolNumber::from(*rng.pick(&[6u8, 17, 202, 0, 255, 43])) },
+            },
+            address: AddressHeader { dst_ia: IsdAsn::from_u64(rng.next()), src_ia: IsdAsn::from_u64(rng.next()), dst_host_addr: gen_host(rng, adversarial), src_host_addr: gen_host(rng, adversarial) },
+            path: gen_path(rng, adversarial),
+        };
+        let pay = match kind {
+            0 => Pay::Raw(gen_data(rng, sizes)),
+            1 => Pay::Udp(UdpDatagram::new(rng.next() as u16, rng.next() as u16, gen_data(rng, sizes))),
+            _ => Pay::Scmp(gen_scmp(rng, sizes)),
+        };
+        Model { header, pay }
+    }
+
+    fn kind_of(m: &Model) -> &'static str {
+        match m.pay { Pay::Raw(_) => "raw", Pay::Udp(_) => "udp", Pay::Scmp(_) => "scmp" }
+    }
+    fn cut(s: &str) -> String {
+        if s.len() > 300 { format!("{}…({} chars)", &s[..300], s.len()) } else { s.to_string() }
+    }
+
+    /// expected output of the reference decoder for the bytes of a representable model
+    fn expected_ref(m: &Model, bytes: &[u8]) -> String {
+        let hs = m.header.required_size();
+        let ps = bytes.len() - hs;
+        let pay = match &m.pay {
+            Pay::Raw(b) => format!("raw:{}", hex(b)),
+            Pay::Udp(u) => format!("udp:{}:{}:{}", u.src_port, u.dst_port, hex(&u.payload)),
+            Pay::Scmp(_) => format!("scmphdr:{}:{}:{}", bytes[hs], bytes[hs + 1], hex(&bytes[hs + 4..])),
+        };
+        let (ulen, ucs, scs) = match &m.pay {
+            Pay::Udp(_) => (8 + (ps - 8), u16::from_be_bytes([bytes[hs + 6], bytes[hs + 7]]) as usize, u16::from_be_bytes([bytes[hs + 2], bytes[hs + 3]]) as usize),
+            _ => {
+                let g = |i: usize| if hs + i + 1 < bytes.len() { u16::from_be_bytes([bytes[hs + i], bytes[hs + i + 1]]) as usize } else if hs + i < bytes.len() { bytes[hs + i] as usize } else { 0 };
+                (g(4), g(6), g(2))
+            }
+        };
+        format!("ok v=0 hl={hs} pl={ps} rsv=0 ulen={ulen} ucs={ucs} scs={scs} {} {pay}", show_header(&m.header))
+    }
+
+    /// one model: encode on both sides, spec oracle on the implementation's bytes
+    pub fn model_case(cx: &mut Ctx, stream: &str, m: &Model) {
+        let text = show_model(m, true);
+        let unrep = unrepresentable(m);
+        let (im, bytes) = impl_encode(m);
+        let mo = cx.lean.ask(&format!("enc {text}"));
+        let class = if im.starts_with("ok") { "ok".to_string() } else { im.split(' ').take(2).collect::<Vec<_>>().join(" ") };
+        cx.rep.hit(&format!("encode {}: {}", kind_of(m), &class[..class.len().min(70)]));
+        cx.rep.hit(&format!("model: {}", unrep.map(|u| format!("unrepresentable ({u})")).unwrap_or("representable".into())));
+        cx.rep.case(&format!("enc|{}", cut(&text)), im.starts_with("ok") || !im.contains("header_size"));
+        if cx.lean.differs(&mo, &im) {
+            cx.rep.disagree(stream, json!({"model": cut(&text), "line": format!("enc {}", cut(&text))}), &cut(&im), &cut(&mo));
+        }
+        if im.starts_with("panic") {
+            cx.rep.spec_fail("C03:panic:encode", &format!("try_encode_to_vec panicked: {}", cut(&im)), json!({"model": cut(&text)}));
+        }
+        let Some(bytes) = bytes else { return };
+        // the encoder accepted the model
+        if let Some(u) = unrep {
+            cx.rep.spec_fail(&format!("C03:unrepresentable-encoded:{u}"), &format!("a model that cannot be represented on the wire ({u}) was encoded ({} bytes) instead of being rejected", bytes.len()), json!({"model": cut(&text)}));
+            return;
+        }
+        if bytes.len() != impl_required(m) {
+            cx.rep.spec_fail("C03:encode-length", &format!("encoded {} bytes, required_size announced {}", bytes.len(), impl_required(m)), json!({"model": cut(&text)}));
+        }
+        // dirty caller buffer must give the same bytes (no stale byte may survive)
+        for extra in [0usize, 3] {
+            if let Some(d) = impl_encode_dirty(m, extra) {
+                if d != bytes {
+                    let pos = d.iter().zip(bytes.iter()).position(|(a, b)| a != b).unwrap_or(bytes.len().min(d.len()));
+                    cx.rep.spec_fail("C03:stale-bytes", &format!("try_encode into a non-zero buffer differs from try_encode_to_vec at byte {pos} (a field is not written)"), json!({"model": cut(&text), "offset": pos, "header_size": m.header.required_size(), "payload": match &m.pay { Pay::Scmp(s) => cut(&show_scmp(s, true)), Pay::Udp(_) => "udp".into(), Pay::Raw(_) => "raw".into() }}));
+                    break;
+                }
+            }
+        }
+        // round trip through the real decoder
+        let (dm, dmodel) = impl_decode(kind_of(m), &bytes);
+        let want = format!("ok {} {}", bytes.len(), show_model(m, false));
+        if dm != want && !quote_truncated(m) {
+            cx.rep.spec_fail("C03:roundtrip", "decode(encode(m)) differs from m", json!({"model": cut(&text), "decoded": cut(&dm)}));
+        }
+        let _ = dmodel;
+        // the model decoder on the implementation's bytes
+        let md = cx.lean.ask(&format!("dec {} {}", kind_of(m), hex(&bytes)));
+        if cx.lean.differs(&md, &dm) {
+            cx.rep.disagree("decode-of-encoding", json!({"model": cut(&text)}), &cut(&dm), &cut(&md));
+        }
+        // reference decoder (independent of the layout table) reads the same fields; length fields truthful
+        if !quote_truncated(m) && bytes.len() <= 70000 {
+            let r = cx.lean.ask(&format!("ref {} {}", kind_of(m), hex(&bytes)));
+            let want = expected_ref(m, &bytes);
+            if cx.lean.enabled && r != want {
+                cx.rep.spec_fail("C03:ref-disagrees", "the reference decoder (written from the header specification) reads the encoded packet differently from the model that was encoded", json!({"model": cut(&text), "ref": cut(&r), "want": cut(&want)}));
+            }
+            cx.rep.hit("reference decoder compared");
+        }
+        // checksum verifies over the SCION pseudo-header
+        let hs = m.header.required_size();
+        let proto = match m.pay { Pay::Udp(_) => Some(17u8), Pay::Scmp(_) => Some(202u8), _ => None };
+        if let Some(p) = proto {
+            let msg = &bytes[hs..];
+            let mut all = pseudo(&m.header.address, p, msg.len());
+            all.extend_from_slice(msg);
+            if ones_sum(&all) != 0xffff {
+                cx.rep.spec_fail("C03:checksum", "the checksum of the encoded message does not verify over pseudo-header ‖ message", json!({"model": cut(&text)}));
+            }
+            cx.rep.hit("checksum verified");
+        }
+        cx.rep.traces += 1;
+    }
+
+    /// decoder correspondence + canonical re-encoding on arbitrary bytes
+    pub fn bytes_case(cx: &mut Ctx, stream: &str, kind: &str, b: &[u8]) {
+        let (im, model) = impl_decode(kind, b);
+        let mo = cx.lean.ask(&format!("dec {kind} {}", hex(b)));
+        cx.rep.hit(&format!("decode {kind}: {}", im.split(' ').take(if im.starts_with("err") { 3 } else { 1 }).collect::<Vec<_>>().join(" ")));
+        cx.rep.case(&format!("dec|{kind}|{}", hex(&b[..b.len().min(64)])), im.starts_with("ok"));
+        if cx.lean.differs(&mo, &im) {
+            cx.rep.disagree(stream, json!({"kind": kind, "bytes": super::short_hex(b), "line": format!("dec {kind} {}", hex(b))}), &cut(&im), &cut(&mo));
+        }
+        if im.starts_with("panic") {
+            cx.rep.spec_fail("C03:panic:decode", &format!("decoder panicked: {}", cut(&im)), json!({"kind": kind, "bytes": super::short_hex(b)}));
+        }
+        // canonical encodings re-encode to the same bytes
+        if let Some(m) = model {
+            let (em, eb) = impl_encode(&m);
+            if let Some(eb) = eb {
+                if canonical(kind, b, &m) && eb != b {
+                    cx.rep.spec_fail("C03:canonical-reencode", "a canonical encoding (consistent length fields, zero reserved bits, valid checksum, no trailing bytes) decodes and re-encodes to different bytes", json!({"kind": kind, "bytes": super::short_hex(b), "reencoded": super::short_hex(&eb)}));
+                }
+                if eb == b { cx.rep.hit("canonical re-encode identical") }
+            } else if canonical(kind, b, &m) {
+                cx.rep.hit(&format!("decoded model not re-encodable: {}", &em[..em.len().min(60)]));
+            }
+        }
+    }
+
+    /// Canonical(b): the property's side condition, evaluated independently of the crate
+    fn canonical(kind: &str, b: &[u8], m: &Model) -> bool {
+        if b.len() < 12 { return false }
+        let hl = b[5] as usize * 4;
+        let pl = u16::from_be_bytes([b[6], b[7]]) as usize;
+        if b.len() != hl + pl || b[10] != 0 || b[11] != 0 { return false }
+        // reserved bits of the path
+        let dl = ((b[9] >> 4) & 3) as usize; let sl = (b[9] & 3) as usize;
+        let po = 28 + (dl + 1) * 4 + (sl + 1) * 4;
+        for (i, h) in [&m.header.address.dst_host_addr, &m.header.address.src_host_addr].iter().enumerate() {
+            if let WireHostAddr::Svc(_) = h {
+                let off = if i == 0 { 28 } else { 28 + (dl + 1) * 4 };
+                if b[off + 2] != 0 || b[off + 3] != 0 { return false }
+            }
+        }
+        match &m.header.path {
+            DpPath::Standard(s) => {
+                if b[po + 1] & 0xfc != 0 { return false }
+                // segments must be a non-empty prefix, current indices in range
+                let lens = [(u32::from_be_bytes([b[po], b[po + 1], b[po + 2], b[po + 3]]) >> 12) & 63, (u32::from_be_bytes([b[po], b[po + 1], b[po + 2], b[po + 3]]) >> 6) & 63, u32::from_be_bytes([b[po], b[po + 1], b[po + 2], b[po + 3]]) & 63];
+                if lens[0] == 0 || (lens[1] == 0 && lens[2] != 0) { return false }
+                let n = s.segments.len();
+                for i in 0..n { if b[po + 4 + 8 * i + 1] != 0 { return false } }
+                let hops: usize = s.segments.iter().map(|g| g.hop_fields.len()).sum();
+                if s.current_hop_field as usize >= hops || s.current_info_field as usize >= n { return false }
+            }
+            DpPath::OneHop(_) => { if b[po + 1] != 0 { return false } }
+            _ => {}
+        }
+        let proto = match kind { "udp" => 17u8, "scmp" => 202, _ => return true };
+        let msg = &b[hl..];
+        if kind == "udp" && (msg.len() < 8 || u16::from_be_bytes([msg[4], msg[5]]) as usize != msg.len()) { return false }
+        if kind == "scmp" {
+            if msg.len() < 8 { return false }
+            match msg[0] {
+                1 => { if msg[4..8] != [0, 0, 0, 0] { return false } }
+                2 | 4 => { if msg[4..6] != [0, 0] || (msg[0] == 2 && msg[1] != 0) { return false } }
+                5 => { if msg.len() < 20 || msg[1] != 0 || msg[12..18] != [0; 6] { return false } }
+                6 => { if msg.len() < 28 || msg[1] != 0 || msg[12..18] != [0; 6] || msg[20..26] != [0; 6] { return false } }
+                128 | 129 => { if msg[1] != 0 { return false } }
+                130 => { if msg.len() != 24 || msg[1] != 0 || msg[8..24] != [0; 16] { return false } }
+                131 => { if msg.len() != 24 || msg[1] != 0 || msg[16..22] != [0; 6] { return false } }
+                _ => { if msg[4..8] != [0, 0, 0, 0] { return false } }
+            }
+            if matches!(msg[0], 1 | 2 | 4 | 5 | 6) && b.len() > 1232 { return false }
+        }
+        let mut all = pseudo(&m.header.address, proto, msg.len());
+        all.extend_from_slice(msg);
+        ones_sum(&all) == 0xffff
+    }
+
+    /// checksum digest at both alignments vs the reference and the Lean model
+    pub fn checksum_cases(cx: &mut Ctx, n: usize) {
+        let mut rng = cx.rng.fork();
+        for i in 0..n {
+            let addr = AddressHeader { dst_ia: IsdAsn::from_u64(rng.next()), src_ia: IsdAsn::from_u64(rng.next()), dst_host_addr: gen_host(&mut rng, false), src_host_addr: gen_host(&mut rng, false) };
+            let len = *rng.pick(&[0usize, 1, 2, 3, 7, 8, 9, 64, 65, 1231, 1232, 1500]) + if i % 7 == 0 { 60000 } else { 0 };
+            let data = if i % 5 == 0 { vec![0xffu8; len] } else { rng.bytes(len) };
+            let proto = *rng.pick(&[17u8, 202]);
+            // place the data at an even and at an odd address
+            let mut arena = vec![0u8; len + 2];
+            let base_even = if (arena.as_ptr() as usize) % 2 == 0 { 0 } else { 1 };
+            let mut out = vec![];
+            for odd in [0usize, 1] {
+                let o = base_even + odd;
+                arena[o..o + len].copy_from_slice(&data);
+                let sl = &arena[o..o + len];
+                let r = catch(|| ChecksumDigest::with_pseudoheader(&addr, proto, sl).add_slice(sl).checksum());
+                out.push(r.map(|x| x as u32).unwrap_or(0x1_0000));
+            }
+            let mut all = pseudo(&addr, proto, len);
+            all.extend_from_slice(&data);
+            let want = (!ones_sum(&all) as u16) as u32;
+            cx.rep.hit("checksum at both alignments");
+            cx.rep.case(&format!("cksum|{len}|{}", hex(&data[..len.min(16)])), len > 0);
+            if out[0] != want || out[1] != want {
+                cx.rep.spec_fail("C03:checksum-alignment", &format!("ChecksumDigest gives {:#x} (even address) / {:#x} (odd address), RFC 1071 reference {:#x}", out[0], out[1], want), json!({"len": len, "data": super::short_hex(&data)}));
+            }
+            let mo = cx.lean.ask(&format!("cksum {} {} {} {} {proto} 1{}{} {}", addr.dst_ia.to_u64(), addr.src_ia.to_u64(), hex(&host_bytes(&addr.dst_host_addr)), hex(&host_bytes(&addr.src_host_addr)), rng.below(2), rng.below(2), if data.iter().all(|x| *x == 0xff) && len > 4096 { format!("rep:255:{len}") } else { hex(&data) }));
+            let im = format!("{} {}", out[0], want);
+            if cx.lean.differs(&mo, &im) {
+                cx.rep.disagree("checksum", json!({"len": len}), &im, &mo);
+            }
+        }
+    }
+}
+
+
+/// deterministic probes: the concrete models of DESIGN.md §9 row 4 and of the other fixed C03 defects; each must
+/// be rejected (or encode identically into a dirty buffer) on the fixed tree
+fn probes_c03(cx: &mut Ctx) {
+    use c03::*;
+    use sciparse::{
+        address::host_addr::WireHostAddr,
+        dataplane_path::{model::DpPath, standard::model::{HopField, InfoField, Segment, StandardPath}, types::PathType},
+        payload::{scmp::model::ScmpMessageUnknown, udp::model::UdpDatagram},
+        reexport::tinyvec::{ArrayVec, TinyVec},
+    };
+    let mut rng = Rng::new(3);
+    let base = |rng: &mut Rng| { let mut m = gen_model(rng, false, &[4]); m.header.path = DpPath::Empty; m.header.address.dst_host_addr = WireHostAddr::V4(std::net::Ipv4Addr::new(10, 0, 0, 1)); m.header.address.src_host_addr = WireHostAddr::V4(std::net::Ipv4Addr::new(10, 0, 0, 2)); m };
+    // raw payload of 70 000 bytes (was: PayloadLen = 4464), UDP payload of 65 530 bytes (was: PayloadLen = 2)
+    let mut m = base(&mut rng); m.pay = Pay::Raw(vec![7u8; 70000]); model_case(cx, "probe", &m);
+    let mut m = base(&mut rng); m.pay = Pay::Udp(UdpDatagram::new(1, 2, vec![9u8; 65530])); model_case(cx, "probe", &m);
+    let mut m = base(&mut rng); m.pay = Pay::Udp(UdpDatagram::new(1, 2, vec![9u8; 65527])); model_case(cx, "probe", &m);
+    // Unknown{id:0, 4 bytes} aliases IPv4; id 5 does not fit
+    for (id, n) in [(0u8, 4usize), (0, 16), (1, 4), (5, 8), (64, 8)] {
+        let mut m = base(&mut rng);
+        let mut bytes = ArrayVec::<[u8; 16]>::new();
+        for b in rng.bytes(n) { bytes.push(b) }
+        m.header.address.dst_host_addr = WireHostAddr::Unknown { id, bytes };
+        m.pay = Pay::Raw(vec![1, 2, 3, 4]);
+        model_case(cx, "probe", &m);
+    }
+    // unsupported path with a supported / non-canonical type
+    for t in [PathType::Scion, PathType::OneHop, PathType::Empty, PathType::Other(1), PathType::Other(3)] {
+        let mut m = base(&mut rng);
+        m.header.path = DpPath::Unsupported { path_type: t, data: rng.bytes(36) };
+        model_case(cx, "probe", &m);
+    }
+    // current hop 70 of 80 hop fields (6-bit field); and a path whose reserved meta bits must be written
+    {
+        let mk = |rng: &mut Rng, lens: &[usize], ch: u8| {
+            let mut segments = ArrayVec::<[Segment; 3]>::new();
+            for n in lens {
+                let mut hf = TinyVec::<[HopField; 12]>::new();
+                for _ in 0..*n { hf.push(HopField::empty()) }
+                segments.push(Segment { info_field: InfoField { flags: Default::default(), segment_id: rng.next() as u16, timestamp: 5 }, hop_fields: hf });
+            }
+            DpPath::Standard(StandardPath { current_info_field: 0, current_hop_field: ch, segments })
+        };
+        let mut m = base(&mut rng); m.header.path = mk(&mut rng, &[40, 40], 70); model_case(cx, "probe", &m);
+        let mut m = base(&mut rng); m.header.path = mk(&mut rng, &[2, 3], 4); model_case(cx, "probe", &m);
+    }
+    // unknown SCMP message with a known type; and one with an unknown type (bytes 4..8 must be written)
+    for t in [128u8, 1, 131, 77] {
+        let mut m = base(&mut rng);
+        m.header.common.next_header = sciparse::payload::ProtocolNumber::Scmp;
+        m.pay = Pay::Scmp(ScmpMessageUnknown::new(t, 3, rng.bytes(12)).into());
+        model_case(cx, "probe", &m);
+    }
+    cx.rep.hit_n("deterministic probes", 20);
+}
+
+fn run_c03(cx: &mut Ctx, args: &Args) {
+    use c03::*;
+    let mut rng = cx.rng.fork();
+    let small: Vec<usize> = vec![0, 1, 2, 7, 8, 9, 31, 64, 200, 1180, 1232, 1400];
+    let boundary: Vec<usize> = vec![0, 1, 65526, 65527, 65528, 65529, 65530, 65531, 65532, 65533, 65534, 65535, 65536, 70000, 1 << 17];
+    // structured, mostly representable models
+    for _ in 0..args.scale(3000, 100000) {
+        let m = gen_model(&mut rng, false, &small);
+        model_case(cx, "models", &m);
+    }
+    // adversarial models: unrepresentable hosts / paths / indices / flow ids
+    for _ in 0..args.scale(1500, 30000) {
+        let m = gen_model(&mut rng, true, &small);
+        model_case(cx, "adversarial-models", &m);
+    }
+    // boundary payload sizes (all payload kinds × every boundary size)
+    for round in 0..args.scale(2, 12) {
+        for &n in &boundary {
+            for _ in 0..3 {
+                let mut m = gen_model(&mut rng, false, &[n]);
+                if round % 2 == 0 { m.header.path = sciparse::dataplane_path::model::DpPath::Empty }
+                model_case(cx, "boundary-payload", &m);
+            }
+        }
+    }
+    // decoder: encodings, mutated encodings, truncations, trailing bytes
+    for _ in 0..args.scale(2500, 80000) {
+        let m = gen_model(&mut rng, false, &small[..9]);
+        let (_, b) = impl_encode(&m);
+        let Some(mut b) = b else { continue };
+        let kind = match m.pay { Pay::Raw(_) => "raw", Pay::Udp(_) => "udp", Pay::Scmp(_) => "scmp" };
+        bytes_case(cx, "decode-canonical", kind, &b);
+        match rng.below(6) {
+            0 => { let k = rng.below(b.len() as u64 + 1) as usize; b.truncate(k) }
+            1 => { let n = 1 + rng.below(9) as usize; b.extend_from_slice(&rng.bytes(n)) }
+            2 => { let k = rng.below(b.len() as u64) as usize; b[k] ^= 1 << rng.below(8) }
+            3 => { let k = rng.below(12.min(b.len()) as u64) as usize; b[k] = rng.next() as u8 }
+            4 => { let k = rng.below(b.len() as u64) as usize; b[k] = b[k].wrapping_add(1) }
+            _ => {}
+        }
+        let k2 = *rng.pick(&["raw", "udp", "scmp", kind, kind]);
+        bytes_case(cx, "decode-mutated", k2, &b);
+    }
+    checksum_cases(cx, args.scale(400, 8000));
+    probes_c03(cx);
+}
+
 fn replay_line(cx: &mut Ctx, l: &str) {
     let w: Vec<&str> = l.split_whitespace().collect();
     match w.as_slice() {
@@ -908,6 +1575,9 @@ fn replay_line(cx: &mut Ctx, l: &str) {
                 if im.starts_with("ok") { mutate_view(cx, kind, &b, 4) }
             }
         }
+        ["dec", kind, hx] => {
+            if let Some(b) = unhex(hx) { c03::bytes_case(cx, "corpus", kind, &b) }
+        }
         _ => cx.rep.notes.push(format!("unparseable corpus line: {}", &l[..l.len().min(60)])),
     }
 }
@@ -918,7 +1588,12 @@ fn main() {
     install_fault_handler(&args.out, &args.prop);
     let lean = Lean::spawn(&args.driver);
     let rule = if args.prop == "C03" {
-        "see hx_codec C03"
+        "case = packet model (header with every address type incl. service / unknown 4-16 B, every path kind, raw / UDP / every SCMP kind, \
+         boundary payload sizes) encoded by the real try_encode_to_vec and by the Lean model, or a byte string decoded by the real \
+         TryFromView::try_from_slice and by the Lean model; spec oracle on the implementation's bytes: announced length, dirty-buffer \
+         encode, real round trip, reference decoder written from the header spec, length fields, RFC 1071 checksum over the pseudo-header, \
+         unrepresentable models must be rejected, canonical encodings re-encode identically. Non-trivial = encode accepted or rejected for a \
+         reason other than header size / decode accepted; distinct by hash of the model text / (kind, first 64 bytes)"
     } else {
         "case = (view kind, byte string): has_required_size of the real view vs the Lean model (Ok/Err class, size, error \
          location/required/actual), spec oracle on the implementation (size ≤ input, re-parse of the prefix, no panic), every \
@@ -936,6 +1611,7 @@ fn main() {
         for l in &corpus { replay_line(&mut cx, l) }
         match args.prop.as_str() {
             "C02" => run_c02(&mut cx, &args),
+            "C03" => run_c03(&mut cx, &args),
             other => cx.rep.notes.push(format!("property {other} not served by this build of hx_codec")),
         }
     }
